@@ -273,3 +273,41 @@ def monitor_slice(h):
     h.check('same-multiplier-and-label', '(r.k is None if k is None else r.k == k) and r.label == m.label', **e)
     h.check('shares-no-list-with-the-original', 'not same(r._x, m._x) and not same(r._y, m._y) and not same(r._id, m._id)', **e)
     h.check('original-unchanged', 'len(m._x) == n and len(m._y) == n and forall(0, n, lambda q: m._x[q] == xs[q] and m._y[q] == ys[q] and m._id[q] == ids[q])', **e)
+
+
+def _install_other(h, method, field):
+    """the other documented ways of calling Set{Generation,Evaluation}Monitor with new=False: None / Null() / the Null
+    class (the generation monitor then becomes a fresh Monitor that keeps every record collected so far -- generations
+    are counted from it --, the evaluation monitor becomes the record-less Null), and the monitor that is already
+    installed given again (nothing is prepended to itself: no record is duplicated)"""
+    given = h.choice('given', ['None', 'Null()', 'Null', 'the-installed-monitor'])
+    kb = _k(h, 'kb')
+    b, p, bx, by, bid = _scalar_monitor(h, 'b', kb)
+    bx0, by0, bid0 = h.snapshot(bx), h.snapshot(by), h.snapshot(bid)
+    s = h.obj(AS + '::AbstractSolver', _energy_history=h.list_real('stale_energy_history'), _solution_history=None,
+              **{field: b, '_stepmon' if field != '_stepmon' else '_evalmon': None})
+    NullC = h.get(M + '::Null')
+    arg = {'None': None, 'Null()': h.call(NullC), 'Null': NullC, 'the-installed-monitor': b}[given]
+    h.call(h.getattr(s, method), arg)
+    cur = h.field(s, field)
+    e = dict(s=s, cur=cur, b=b, p=p, kb=kb, bx0=bx0, by0=by0, bid0=bid0, bx=bx, by=by, bid=bid)
+    if given == 'the-installed-monitor':
+        h.check('the-installed-monitor-stays-installed-with-its-records-once', 'same(cur, b) and len(b) == p and len(bx) == p and '
+                'forall(0, p, lambda i: bx[i] == bx0[i] and by[i] == by0[i] and bid[i] == bid0[i])', **e)
+    elif field == '_stepmon':
+        e.update(x=h.field(cur, '_x'), y=h.field(cur, '_y'), ids=h.field(cur, '_id'))
+        h.check('a-fresh-monitor-is-installed', 'not same(cur, b) and cur.k is None', **e)
+        h.check('every-record-collected-so-far-is-kept', 'len(cur) == p and len(x) == p and len(y) == p and '
+                'forall(0, p, lambda i: x[i] == bx0[i] and ids[i] == bid0[i] and y[i] * %s == by0[i])' % (VIS % ('kb', 'kb')), **e)
+        _other_unchanged(h, e)
+    else:
+        h.check('the-record-less-Null-monitor-is-installed', 'len(cur) == 0 and not same(cur, b)', **e)
+        _other_unchanged(h, e)
+    if field == '_stepmon':
+        h.check('cached-histories-resynchronised-with-the-new-monitor', 's._energy_history is None and s._solution_history is None', **e)
+
+
+contract('C20/SetGenerationMonitor/None-Null-or-the-same-monitor', ['C20', 'C04', 'C05'], AS + '::AbstractSolver.SetGenerationMonitor',
+         loops=_prepend_loops(), samples=200)(lambda h: _install_other(h, 'SetGenerationMonitor', '_stepmon'))
+contract('C20/SetEvaluationMonitor/None-Null-or-the-same-monitor', ['C20', 'C04'], AS + '::AbstractSolver.SetEvaluationMonitor',
+         loops=_prepend_loops(), samples=200)(lambda h: _install_other(h, 'SetEvaluationMonitor', '_evalmon'))
